@@ -282,7 +282,16 @@ let run_seq_op (tid : string) (tag : string) (stops : string) (mk : kind -> nat 
     let s = show_out k tag o in
     (* strip "<tag> " *)
     String.sub s (String.length tag + 1) (String.length s - String.length tag - 1) in
-  tag ^ " " ^ String.concat " | " (List.map pass (String.split_on_char '/' stops))
+  (* "nJ": a full pass during which, at element J, the same sequence value is ranged over completely: the
+     model's sequences are values, so this is the full pass twice when it has more than J elements, once otherwise *)
+  let passes stop =
+    if String.length stop > 0 && stop.[0] = 'n' then begin
+      let j = int_of_string (String.sub stop 1 (String.length stop - 1)) in
+      let p = pass "-" in
+      let cnt = (try int_of_string (List.hd (String.split_on_char ' ' p)) with _ -> 0) in
+      if cnt > j then [p; pass "-"] else [p]
+    end else [pass stop] in
+  tag ^ " " ^ String.concat " | " (List.concat_map passes (String.split_on_char '/' stops))
 
 let handle (line : string) : string option =
   let toks = List.filter (fun s -> s <> "") (String.split_on_char ' ' line) in
